@@ -589,6 +589,11 @@ func sp(e *Exec, self *Thread, kind string, obj int, enabled func() bool) {
 // takes effect; enabled == nil means always enabled.
 func SchedPoint(kind string, obj int, enabled func() bool) {
 	e := must()
+	if e.opts.PreemptKinds != nil && enabled == nil && strings.HasSuffix(kind, "-done") && !e.opts.PreemptKinds[kind] {
+		// the second point behind a release operation exists only to be preempted at: where the exploration
+		// restricts preemptions to other kinds it is not a point at all
+		return
+	}
 	sp(e, e.cur, kind, obj, enabled)
 }
 
